@@ -81,8 +81,9 @@ def run(replay=None):
         inputs.append((entry, text))
         if 'within 100' in text:
             inputs.append((entry, text.replace('within 100 s', 'within ' + rnd.choice(TIME_POOL)).replace('within 100 ms', 'within ' + rnd.choice(TIME_POOL))))
-    if not thorough and len(inputs) > 14000:
-        inputs = rnd.sample(inputs, 14000)
+    cap = 60000 if thorough else 14000
+    if len(inputs) > cap:
+        inputs = rnd.sample(inputs, cap)
     for fam in ['funs', 'incl', 'quants', 'slots', 'bool1w', 'num1w'] + (['alias', 'cmp11'] if thorough else []):
         fs, st = grammar.enumerate_family(fam)
         rep.add_tlc(st)
